@@ -213,8 +213,12 @@ def run(ctx):
     c04.r41(ctx, repo['writer'])
     c02.r27(ctx, 'R1.7')
     c03.r39(ctx, 'R1.8')
+    from . import c11
+    c11.r1110(ctx, 'R1.15')
     c03.r313(ctx, repo['core'], 'R1.12')
     c03.r311(ctx, repo['core'], 'R1.13')
+    c03.r315(ctx, repo['core'], 'R1.16')
+    c03.r316(ctx, repo['core'], repo['compression'], 'R1.17')
     from . import callsigs as _cs
     _cs.general_rules(ctx, 'R1', ['writer.write', 'writer.write_simple', 'writer.write_multi', 'writer.make_row_group', 'writer.make_part_file', 'writer.partition_on_columns', 'writer.make_metadata', 'writer.write_column', 'core', 'api.ParquetFile.to_pandas', 'api.ParquetFile.read_row_group_file', 'converted_types', 'encoding', 'writer.convert', 'writer.find_type', 'api.ParquetFile.pre_allocate', 'api.ParquetFile._dtypes', 'api._pre_allocate', 'dataframe'])
 
